@@ -6,6 +6,7 @@ import Driver.OpsHist
 import Driver.OpsKeys
 import Driver.OpsExt
 import Driver.OpsFs
+import Driver.OpsCli
 /-! Line-protocol driver: reads one JSON object per line (`op`, `id`, `in`, `out`) from stdin,
     runs the Lean model and the specification on it, and prints one verdict per line. -/
 open Lean Driver
@@ -20,7 +21,7 @@ def opCrash : OpFn := fun _ _ out => do
   pure { corr := true, spec := true, nontrivial := true, branch := cls }
 
 def table : List (String × OpFn) :=
-  [("merge", opMerge), ("validate", opValidate), ("rdn", opRdn), ("raw", opRaw), ("validity", opValidity), ("pki", opPki), ("hash", opHash), ("hist", opHist), ("open", opPki), ("pkcs8", opPkcs8), ("pemfile", opPemFile), ("ext", opExt), ("crash", opCrash), ("fsops", opFs)]
+  [("merge", opMerge), ("validate", opValidate), ("rdn", opRdn), ("raw", opRaw), ("validity", opValidity), ("pki", opPki), ("hash", opHash), ("hist", opHist), ("open", opPki), ("pkcs8", opPkcs8), ("pemfile", opPemFile), ("ext", opExt), ("crash", opCrash), ("fsops", opFs), ("cli", opCli)]
 
 def handleLine (view : String) (line : String) : String :=
   match Json.parse line with
